@@ -114,6 +114,21 @@ func (x *exec_) run(k int, st *step) *stepObs {
 			o.Replied = x.srv.waitReady(5 * time.Second)
 		}
 		o.Alive = x.srv.aliveAfter(0)
+	case "rows":
+		o.JSON = dbRows(x.srv.db)
+		o.Replied = true
+		o.Alive = x.srv.aliveAfter(0)
+	case "burst":
+		x.doBurst(o, st, now)
+	case "startkill":
+		// a crash during recovery: start, do not wait for readiness, kill after ms
+		if err := x.srv.start(); err != nil {
+			o.Body = "procx: " + err.Error()
+		} else {
+			time.Sleep(time.Duration(st.Ms) * time.Millisecond)
+			o.Replied = x.srv.signal(syscall.SIGKILL, 5*time.Second)
+		}
+		o.Alive = x.srv.running()
 	case "db":
 		o.JSON = dbCounts(x.srv.db)
 		o.Replied = true
@@ -155,6 +170,10 @@ func truncate(b []byte, n int) string {
 
 func (x *exec_) doHTTP(o *stepObs, st *step, now int64) {
 	defer func() { o.Alive = x.srv.aliveAfter(aliveDelay) }()
+	x.httpOnce(o, st, now)
+}
+
+func (x *exec_) httpOnce(o *stepObs, st *step, now int64) {
 
 	var body []byte
 	if st.BodyB64 != nil {
@@ -348,6 +367,129 @@ func dbCounts(path string) map[string]any {
 	out["pendingPromises"] = count(`SELECT COUNT(*) FROM promises WHERE state = 1`)
 	out["orphanCallbacks"] = count(`SELECT COUNT(*) FROM callbacks c LEFT JOIN promises p ON p.id = c.promise_id WHERE p.id IS NULL OR p.state != 1`)
 	return out
+}
+
+// dbRows: the identifying columns of every row, read from the database file itself.
+func dbRows(path string) map[string]any {
+	out := map[string]any{"ok": false, "err": "", "promises": []any{}, "callbacks": []any{}, "tasks": []any{}, "schedules": []any{}, "locks": []any{}}
+	if _, err := os.Stat(path); err != nil {
+		out["ok"] = true // no file: no rows
+		return out
+	}
+	// read-write: after a kill -9 a hot rollback journal may be waiting, and recovering it (what the
+	// server's own first access would do) needs write access to the file
+	db, err := sql.Open("sqlite3", "file:"+path+"?mode=rw&_busy_timeout=3000")
+	if err != nil {
+		out["err"] = err.Error()
+		return out
+	}
+	defer db.Close()
+	db.SetMaxOpenConns(1)
+	ok := true
+	out["err"] = ""
+	query := func(q string, n int, mk func(v []any) map[string]any) []any {
+		list := []any{}
+		var rows *sql.Rows
+		var err error
+		for attempt := 0; attempt < 5; attempt++ {
+			rows, err = db.Query(q)
+			if err == nil || !(strings.Contains(err.Error(), "locked") || strings.Contains(err.Error(), "busy")) {
+				break
+			}
+			time.Sleep(30 * time.Millisecond)
+		}
+		if err != nil {
+			if !strings.Contains(err.Error(), "no such table") {
+				ok = false
+				out["err"] = err.Error()
+			}
+			return list
+		}
+		defer rows.Close()
+		for rows.Next() {
+			v := make([]any, n)
+			ptr := make([]any, n)
+			for i := range v {
+				ptr[i] = &v[i]
+			}
+			if err := rows.Scan(ptr...); err != nil {
+				ok = false
+				return list
+			}
+			list = append(list, mk(v))
+		}
+		return list
+	}
+	str := func(v any) string {
+		switch t := v.(type) {
+		case []byte:
+			return string(t)
+		case string:
+			return t
+		case nil:
+			return ""
+		}
+		return ""
+	}
+	num := func(v any) int64 {
+		if t, ok := v.(int64); ok {
+			return t
+		}
+		return 0
+	}
+	out["promises"] = query(`SELECT id, state, tags FROM promises ORDER BY id`, 3, func(v []any) map[string]any {
+		tags := map[string]string{}
+		_ = json.Unmarshal([]byte(str(v[2])), &tags)
+		_, routed := tags["resonate:invoke"]
+		return map[string]any{"id": str(v[0]), "state": num(v[1]), "routed": routed, "sched": tags["resonate:schedule"]}
+	})
+	out["callbacks"] = query(`SELECT id, promise_id FROM callbacks ORDER BY id`, 2, func(v []any) map[string]any {
+		return map[string]any{"id": str(v[0]), "promiseId": str(v[1])}
+	})
+	out["tasks"] = query(`SELECT id, state, root_promise_id FROM tasks ORDER BY id`, 3, func(v []any) map[string]any {
+		return map[string]any{"id": str(v[0]), "state": num(v[1]), "rootPromiseId": str(v[2])}
+	})
+	out["schedules"] = query(`SELECT id FROM schedules ORDER BY id`, 1, func(v []any) map[string]any {
+		return map[string]any{"id": str(v[0])}
+	})
+	out["locks"] = query(`SELECT resource_id, execution_id FROM locks ORDER BY resource_id`, 2, func(v []any) map[string]any {
+		return map[string]any{"id": str(v[0]), "executionId": str(v[1])}
+	})
+	out["ok"] = ok
+	return out
+}
+
+// doBurst sends all requests of the step at once and kills the server ms milliseconds later,
+// without waiting for the replies; what was acknowledged before the kill is written down.
+func (x *exec_) doBurst(o *stepObs, st *step, now int64) {
+	type res struct {
+		Name    string `json:"name"`
+		Replied bool   `json:"replied"`
+		Code    int    `json:"code"`
+		Class   string `json:"class"`
+	}
+	results := make([]res, len(st.Reqs))
+	var wg sync.WaitGroup
+	for i := range st.Reqs {
+		wg.Add(1)
+		go func(i int) {
+			defer wg.Done()
+			r := &st.Reqs[i]
+			ro := &stepObs{Class: "none"}
+			x.httpOnce(ro, r, now)
+			results[i] = res{Name: r.Name, Replied: ro.Replied, Code: ro.Code, Class: ro.Class}
+		}(i)
+	}
+	time.Sleep(time.Duration(st.Ms) * time.Millisecond)
+	gone := x.srv.signal(syscall.SIGKILL, 5*time.Second)
+	wg.Wait()
+	list := []any{}
+	for _, r := range results {
+		list = append(list, map[string]any{"name": r.Name, "replied": r.Replied, "code": r.Code, "class": r.Class})
+	}
+	o.JSON = list
+	o.Replied = gone
+	o.Alive = x.srv.running()
 }
 
 // ---------------------------------------------------------------------------------------
